@@ -303,4 +303,202 @@ theorem position_anchor_float32 (κ : ℚ) (hκ : 0 ≤ κ) (path : List (Pos Fl
           (toRat32 p0.y + (toRat d - toRat d0) / (toRat d1 - toRat d0) * (toRat32 p1.y - toRat32 p0.y)) (toRat32 p0.y)
         linarith
 
+/-- two distances `d <= d'` with the SAME bracket: both positions are `path[0]` (`i = 0`), both are `path[i−1]` (degenerate
+bracket), or `position_arc_segment_float32` applies. -/
+theorem position_same_bracket_float32 (κ : ℚ) (hκ : 0 ≤ κ) (path : List (Pos Float32)) (lengths : List Float)
+    (d d' a b : Float)
+    (hlen : path.length = lengths.length) (hs : Sorted lengths) (hbd : ∀ p ∈ path, C16.Bounded19 p)
+    (hfp : ∀ p ∈ path, C16.FinitePos p)
+    (ha : lengths[0]? = some a) (hb : lengths.getLast? = some b)
+    (ha0 : Scalar.le (0 : Float) a = true) (hbf : b.isFinite = true)
+    (hlo : Scalar.le a d = true) (hdd : Scalar.le d d' = true) (hhi : Scalar.le d' b = true)
+    (hch : ChordBooked κ path lengths) (hii : idxOfDist lengths d = idxOfDist lengths d') (p p' : Pos Float32)
+    (he : interpolateVertices path lengths (idxOfDist lengths d) d = .ok p)
+    (he' : interpolateVertices path lengths (idxOfDist lengths d') d' = .ok p') :
+    |toRat32 p.x - toRat32 p'.x| ≤ (toRat d' - toRat d) * (1 + κ) + 2 * interpBound ∧
+    |toRat32 p.y - toRat32 p'.y| ≤ (toRat d' - toRat d) * (1 + κ) + 2 * interpBound := by
+  have hlo' := FMO.le_trans _ _ _ hlo hdd
+  have hhi0 := FMO.le_trans _ _ _ hdd hhi
+  obtain ⟨hil, d1, hd1, hle1, _, _, hpos⟩ := idxOfDist_bracket_float lengths hs d a b ha hb hlo hhi0
+  obtain ⟨_, d1', hd1', hle1', _, _, hpos'⟩ := idxOfDist_bracket_float lengths hs d' a b ha hb hlo' hhi
+  have fd : d.isFinite = true := finite_of_between 0 d b rfl hbf (FMO.le_trans _ _ _ ha0 hlo) hhi0
+  have fd' : d'.isFinite = true := finite_of_between 0 d' b rfl hbf (FMO.le_trans _ _ _ ha0 hlo') hhi
+  have ldd : toRat d ≤ toRat d' := toRat_le_of_le _ _ fd fd' hdd
+  have hIB := interpBound_nonneg
+  have hκ1 : (0 : ℚ) ≤ 1 + κ := by linarith
+  have hnn := mul_nonneg (sub_nonneg.mpr ldd) hκ1
+  have hfl := len_finite_nonneg lengths hs a b ha hb ha0 hbf
+  rw [← hii] at hd1' hpos' he'
+  generalize idxOfDist lengths d = i at *
+  rw [hd1] at hd1'; cases hd1'
+  rcases Nat.eq_zero_or_pos i with hi | hi
+  · subst hi
+    cases path with
+    | nil => simp at hlen; omega
+    | cons q t =>
+      rw [interpolate_idx_zero] at he he'
+      cases he; cases he'
+      constructor <;> rw [sub_self, abs_zero] <;> linarith
+  · obtain ⟨d0, hd0, hle0, _⟩ := hpos hi
+    obtain ⟨d0', hd0', hle0', _⟩ := hpos' hi
+    rw [hd0] at hd0'; cases hd0'
+    have hp1 : path[i]? = some path[i] := List.getElem?_eq_getElem (by omega)
+    have hp0 : path[i - 1]? = some path[i - 1] := List.getElem?_eq_getElem (by omega)
+    cases hdeg : Scalar.le (Scalar.abs (d0 - d1)) (Scalar.eps : Float)
+    · have hb0 := hbd _ (List.mem_of_getElem? hp0)
+      have hb1 := hbd _ (List.mem_of_getElem? hp1)
+      have hf0 := hfp _ (List.mem_of_getElem? hp0)
+      have hf1 := hfp _ (List.mem_of_getElem? hp1)
+      have h00 := (hfl (i - 1) d0 hd0).2
+      have fd1 := (hfl i d1 hd1).1
+      obtain ⟨hfx, hfy, hw, hm⟩ := segFinite_of_bounded _ _ d d0 d1 hb0 hb1 hf0 hf1 h00 hle0 hle1 fd1 hdeg
+      obtain ⟨hfx', hfy', hw', _⟩ := segFinite_of_bounded _ _ d' d0 d1 hb0 hb1 hf0 hf1 h00 hle0' hle1' fd1 hdeg
+      have e := interpolate_formula path lengths i d _ _ d0 d1 (by omega) hp1 hp0 hd0 hd1 hdeg
+      have e' := interpolate_formula path lengths i d' _ _ d0 d1 (by omega) hp1 hp0 hd0 hd1 hdeg
+      rw [e] at he; rw [e'] at he'
+      cases he; cases he'
+      obtain ⟨cx, cy⟩ := hch (i - 1) _ _ d0 d1 hp0 (by rw [Nat.sub_add_cancel hi]; exact hp1) hd0
+        (by rw [Nat.sub_add_cancel hi]; exact hd1)
+      have := position_arc_segment_float32 path[i - 1] path[i] d d' d0 d1 κ hfx hfy hfx' hfy' hw hw' hm hle0 hle1 hle0' hle1'
+        hb0 hb1 cx cy
+      rw [abs_sub_comm (toRat d) (toRat d'), abs_of_nonneg (sub_nonneg.mpr ldd)] at this
+      exact this
+    · have e := interpolate_degenerate path lengths i d _ _ d0 d1 (by omega) hp1 hp0 hd0 hd1 hdeg
+      have e' := interpolate_degenerate path lengths i d' _ _ d0 d1 (by omega) hp1 hp0 hd0 hd1 hdeg
+      rw [e] at he; rw [e'] at he'
+      cases he; cases he'
+      constructor <;> rw [sub_self, abs_zero] <;> linarith
+
+/-- **C19 on IEEE floats, the arc-length clause across segments, general form.** Curve as in
+`positionAt_dist_err_float32_nofin` (as many lengths as vertices; lengths weakly sorted numbers, `0 <= lengths[0]`, finite last
+length; vertices finite and bounded by `2¹⁹`), `ChordBooked κ` with `κ ≥ 0`, two distances `lengths[0] <= d <= d' <= last`
+(IEEE order). Then the brackets are ordered, `i = idx_of_dist d ≤ i' = idx_of_dist d'`, both calls return positions `p`, `p'`,
+and per coordinate `|p.x − p'.x| ≤ (d' − s)(1 + κ) + 2·interpBound`, where `s ≤ d` is the effective arc of `d`
+(`position_anchor_float32`): `s = d` when `i = 0` or the bracket of `d` is non-degenerate, and `lengths[i−1] ≤ s` always. -/
+theorem position_lipschitz_gen_float32 (κ : ℚ) (hκ : 0 ≤ κ) (path : List (Pos Float32)) (lengths : List Float)
+    (d d' a b : Float)
+    (hlen : path.length = lengths.length) (hs : Sorted lengths) (hbd : ∀ p ∈ path, C16.Bounded19 p)
+    (hfp : ∀ p ∈ path, C16.FinitePos p)
+    (ha : lengths[0]? = some a) (hb : lengths.getLast? = some b)
+    (ha0 : Scalar.le (0 : Float) a = true) (hbf : b.isFinite = true)
+    (hlo : Scalar.le a d = true) (hdd : Scalar.le d d' = true) (hhi : Scalar.le d' b = true)
+    (hch : ChordBooked κ path lengths) :
+    idxOfDist lengths d ≤ idxOfDist lengths d' ∧
+    ∃ (p p' : Pos Float32) (s : ℚ),
+      interpolateVertices path lengths (idxOfDist lengths d) d = .ok p ∧
+      interpolateVertices path lengths (idxOfDist lengths d') d' = .ok p' ∧
+      s ≤ toRat d ∧
+      ((idxOfDist lengths d = 0 ∨ ∀ d0 d1, lengths[idxOfDist lengths d - 1]? = some d0 →
+          lengths[idxOfDist lengths d]? = some d1 →
+          Scalar.le (Scalar.abs (d0 - d1)) (Scalar.eps : Float) = false) → s = toRat d) ∧
+      (0 < idxOfDist lengths d → ∀ d0, lengths[idxOfDist lengths d - 1]? = some d0 → toRat d0 ≤ s) ∧
+      |toRat32 p.x - toRat32 p'.x| ≤ (toRat d' - s) * (1 + κ) + 2 * interpBound ∧
+      |toRat32 p.y - toRat32 p'.y| ≤ (toRat d' - s) * (1 + κ) + 2 * interpBound := by
+  have hlo' := FMO.le_trans _ _ _ hlo hdd
+  have hhi0 := FMO.le_trans _ _ _ hdd hhi
+  have hmono := idxOfDist_mono_float lengths hs d d' a b ha hb hlo hdd hhi
+  refine ⟨hmono, ?_⟩
+  obtain ⟨p, s, he, hsd, hseq, hup, hlow⟩ :=
+    position_anchor_float32 κ hκ path lengths d a b hlen hs hbd hfp ha hb ha0 hbf hlo hhi0 hch
+  obtain ⟨p', s', he', hsd', _, _, hlow'⟩ :=
+    position_anchor_float32 κ hκ path lengths d' a b hlen hs hbd hfp ha hb ha0 hbf hlo' hhi hch
+  have hκ1 : (0 : ℚ) ≤ 1 + κ := by linarith
+  have hs0 : 0 < idxOfDist lengths d → ∀ d0, lengths[idxOfDist lengths d - 1]? = some d0 → toRat d0 ≤ s := by
+    intro hi d0 hd0
+    have hil := (idxOfDist_bracket_float lengths hs d a b ha hb hlo hhi0).1
+    exact (hlow hi _ d0 (List.getElem?_eq_getElem (by omega)) hd0).1
+  refine ⟨p, p', s, he, he', hsd, hseq, hs0, ?_⟩
+  rcases Nat.lt_or_ge (idxOfDist lengths d) (idxOfDist lengths d') with hlt | hge
+  · -- different brackets: `p → x_i → x_{i'−1} → p'`
+    have hil' := (idxOfDist_bracket_float lengths hs d' a b ha hb hlo' hhi).1
+    generalize idxOfDist lengths d = i at *
+    generalize idxOfDist lengths d' = i' at *
+    have hpi : path[i]? = some path[i] := List.getElem?_eq_getElem (by omega)
+    have hli : lengths[i]? = some lengths[i] := List.getElem?_eq_getElem (by omega)
+    have hpj : path[i' - 1]? = some path[i' - 1] := List.getElem?_eq_getElem (by omega)
+    have hlj : lengths[i' - 1]? = some lengths[i' - 1] := List.getElem?_eq_getElem (by omega)
+    obtain ⟨_, ux, uy⟩ := hup _ _ hpi hli
+    obtain ⟨_, lx, ly⟩ := hlow' (by omega) _ _ hpj hlj
+    obtain ⟨mx, my⟩ := vertex_chord_sum_float32 κ path lengths hch i (i' - 1) (by omega) _ _ _ _ hpi hpj hli hlj
+    have hm := mul_le_mul_of_nonneg_right hsd' hκ1
+    constructor
+    · have t1 := abs_sub_le (toRat32 p.x) (toRat32 path[i].x) (toRat32 p'.x)
+      have t2 := abs_sub_le (toRat32 path[i].x) (toRat32 path[i' - 1].x) (toRat32 p'.x)
+      rw [abs_sub_comm (toRat32 path[i].x) (toRat32 path[i' - 1].x)] at t2
+      rw [abs_sub_comm (toRat32 path[i' - 1].x) (toRat32 p'.x)] at t2
+      linarith
+    · have t1 := abs_sub_le (toRat32 p.y) (toRat32 path[i].y) (toRat32 p'.y)
+      have t2 := abs_sub_le (toRat32 path[i].y) (toRat32 path[i' - 1].y) (toRat32 p'.y)
+      rw [abs_sub_comm (toRat32 path[i].y) (toRat32 path[i' - 1].y)] at t2
+      rw [abs_sub_comm (toRat32 path[i' - 1].y) (toRat32 p'.y)] at t2
+      linarith
+  · -- the same bracket
+    obtain ⟨bx, bY⟩ := position_same_bracket_float32 κ hκ path lengths d d' a b hlen hs hbd hfp ha hb ha0 hbf hlo hdd hhi
+      hch (by omega) p p' he he'
+    have hm := mul_le_mul_of_nonneg_right (sub_le_sub_left hsd (toRat d')) hκ1
+    exact ⟨by linarith, by linarith⟩
+
+/-- **C19 on IEEE floats: the arc-length clause ACROSS segments.** Curve as in `positionAt_dist_err_float32_nofin`,
+`ChordBooked κ` (`κ ≥ 0`; `2⁻²⁰` for naturally booked lengths, `chordBooked_natural`), `lengths[0] <= d <= d' <= last`; the
+bracket of `d` is non-degenerate (`|lengths[i−1] − lengths[i]| > EPSILON`) — required ONLY when `0 < i < i'`; nothing is
+assumed about the bracket of `d'` nor about the segments in between. Then `i ≤ i'`, and the two positions
+`interpolate_vertices path lengths (idx_of_dist lengths ·) ·` differ, per coordinate, by at most
+`(d' − d)(1 + κ) + 2·interpBound`: the distance travelled along the curve, up to the relative slack `κ` of the booking and the
+additive `2·interpBound = 7/16 + 2⁻¹⁹ < 0.4376` px of the two interpolations (the SAME constant as inside one segment: the
+vertices in between are stored exactly and cost nothing). -/
+theorem position_lipschitz_float32 (κ : ℚ) (hκ : 0 ≤ κ) (path : List (Pos Float32)) (lengths : List Float)
+    (d d' a b : Float)
+    (hlen : path.length = lengths.length) (hs : Sorted lengths) (hbd : ∀ p ∈ path, C16.Bounded19 p)
+    (hfp : ∀ p ∈ path, C16.FinitePos p)
+    (ha : lengths[0]? = some a) (hb : lengths.getLast? = some b)
+    (ha0 : Scalar.le (0 : Float) a = true) (hbf : b.isFinite = true)
+    (hlo : Scalar.le a d = true) (hdd : Scalar.le d d' = true) (hhi : Scalar.le d' b = true)
+    (hch : ChordBooked κ path lengths)
+    (hnd : 0 < idxOfDist lengths d → idxOfDist lengths d < idxOfDist lengths d' →
+      ∀ d0 d1, lengths[idxOfDist lengths d - 1]? = some d0 → lengths[idxOfDist lengths d]? = some d1 →
+        Scalar.le (Scalar.abs (d0 - d1)) (Scalar.eps : Float) = false) :
+    idxOfDist lengths d ≤ idxOfDist lengths d' ∧
+    ∃ (p p' : Pos Float32),
+      interpolateVertices path lengths (idxOfDist lengths d) d = .ok p ∧
+      interpolateVertices path lengths (idxOfDist lengths d') d' = .ok p' ∧
+      |toRat32 p.x - toRat32 p'.x| ≤ (toRat d' - toRat d) * (1 + κ) + 2 * interpBound ∧
+      |toRat32 p.y - toRat32 p'.y| ≤ (toRat d' - toRat d) * (1 + κ) + 2 * interpBound := by
+  obtain ⟨hmono, p, p', s, he, he', hsd, hseq, _, bx, bY⟩ :=
+    position_lipschitz_gen_float32 κ hκ path lengths d d' a b hlen hs hbd hfp ha hb ha0 hbf hlo hdd hhi hch
+  refine ⟨hmono, p, p', he, he', ?_⟩
+  rcases Nat.lt_or_ge (idxOfDist lengths d) (idxOfDist lengths d') with hlt | hge
+  · have : s = toRat d := by
+      apply hseq
+      rcases Nat.eq_zero_or_pos (idxOfDist lengths d) with h | h
+      · exact Or.inl h
+      · exact Or.inr (hnd h hlt)
+    rw [this] at bx bY
+    exact ⟨bx, bY⟩
+  · exact position_same_bracket_float32 κ hκ path lengths d d' a b hlen hs hbd hfp ha hb ha0 hbf hlo hdd hhi
+      hch (by omega) p p' he he'
+
+/-- **… and when the bracket of `d` IS degenerate** (`0 < i`, `|lengths[i−1] − lengths[i]| <= EPSILON`: the code returns the
+vertex `path[i−1]`, the position for the distance `lengths[i−1] <= d`): the bound holds with `d` replaced by
+`lengths[i−1]`, i.e. it is off by at most `(d − lengths[i−1])(1 + κ) ≤ (lengths[i] − lengths[i−1])(1 + κ)`, the booked length
+of the degenerate segment. -/
+theorem position_lipschitz_degenerate_float32 (κ : ℚ) (hκ : 0 ≤ κ) (path : List (Pos Float32)) (lengths : List Float)
+    (d d' a b d0 : Float)
+    (hlen : path.length = lengths.length) (hs : Sorted lengths) (hbd : ∀ p ∈ path, C16.Bounded19 p)
+    (hfp : ∀ p ∈ path, C16.FinitePos p)
+    (ha : lengths[0]? = some a) (hb : lengths.getLast? = some b)
+    (ha0 : Scalar.le (0 : Float) a = true) (hbf : b.isFinite = true)
+    (hlo : Scalar.le a d = true) (hdd : Scalar.le d d' = true) (hhi : Scalar.le d' b = true)
+    (hch : ChordBooked κ path lengths)
+    (hi : 0 < idxOfDist lengths d) (hd0 : lengths[idxOfDist lengths d - 1]? = some d0) :
+    ∃ (p p' : Pos Float32),
+      interpolateVertices path lengths (idxOfDist lengths d) d = .ok p ∧
+      interpolateVertices path lengths (idxOfDist lengths d') d' = .ok p' ∧
+      |toRat32 p.x - toRat32 p'.x| ≤ (toRat d' - toRat d0) * (1 + κ) + 2 * interpBound ∧
+      |toRat32 p.y - toRat32 p'.y| ≤ (toRat d' - toRat d0) * (1 + κ) + 2 * interpBound := by
+  obtain ⟨_, p, p', s, he, he', _, _, hs0, bx, bY⟩ :=
+    position_lipschitz_gen_float32 κ hκ path lengths d d' a b hlen hs hbd hfp ha hb ha0 hbf hlo hdd hhi hch
+  have hκ1 : (0 : ℚ) ≤ 1 + κ := by linarith
+  have hm := mul_le_mul_of_nonneg_right (sub_le_sub_left (hs0 hi d0 hd0) (toRat d')) hκ1
+  exact ⟨p, p', he, he', by linarith, by linarith⟩
+
 end Rosu.C19
